@@ -173,43 +173,14 @@ func c07Naming(c *core.Ctx, r *core.Report) {
 		r.Check(bad == "", "C07.R3", "definition-name@"+core.FnName(gor), c.FnPos(gor), fmt.Sprintf("the definition registered under a key answers Name()==key whatever its default and custom names are (%d abstract runs) %s", runs, bad))
 	}
 
-	// (iii) the scanner is given the singleton registry's key: registeredComponents[name] = GetSingleton(name)
-	srGet := c.IfaceMethod("container", "SingletonRegistry", "GetSingleton")
-	srNames := c.IfaceMethod("container", "SingletonRegistry", "GetSingletonNames")
-	n := 0
-	namesInvokers := map[*ssa.Function]bool{}
-	for _, fn := range c.Invokers(srNames) {
-		namesInvokers[fn] = true
-	}
-	var fillers []*ssa.Function
-	for _, fn := range c.Invokers(srNames) {
-		fillers = append(fillers, fn)
-	}
-	for _, fn := range c.Invokers(srGet) {
-		// a helper the loop body was moved into belongs to the same role
-		if !namesInvokers[fn] && withinRole(c, fn, func(f *ssa.Function) bool { return namesInvokers[f] }, 3) {
-			fillers = append(fillers, fn)
+	// (iii) the scanner is given the singleton registry's key: the preparation table's 'recorded' row (each fetched
+	// singleton is in the component map under the very name it was fetched by)
+	prepareRules(c, r, func(row string) string {
+		if row == "recorded" {
+			return "C07.R3"
 		}
-	}
-	for _, fn := range fillers {
-		for _, b := range fn.Blocks {
-			for _, in := range b.Instrs {
-				mu, ok := in.(*ssa.MapUpdate)
-				if !ok {
-					continue
-				}
-				n++
-				okPair := false
-				if ex, isEx := core.Norm(mu.Value).(*ssa.Extract); isEx {
-					if call, isCall := ex.Tuple.(*ssa.Call); isCall && core.IsInvoke(call.Common(), srGet) {
-						okPair = core.Norm(call.Common().Args[0]) == core.Norm(mu.Key)
-					}
-				}
-				r.Check(okPair, "C07.R3", "registered-components-keyed-by-name@"+core.FnName(fn), c.Pos(mu.Pos()), "each component is recorded under the very name it was fetched by from the singleton registry")
-			}
-		}
-	}
-	r.Floor("C07.R3", "component map fills", n, 1)
+		return ""
+	})
 	// fan-out passes key and value of one entry: decision table of the parallel definition scan
 	defScanRules(c, r, func(row string) string {
 		if row == "pairs" {
